@@ -26,6 +26,7 @@ import MW.Lemmas.LedgerFUEx
 import MW.Lemmas.TxmgrCodecRec
 import MW.Lemmas.LedBytesInv
 import MW.Lemmas.LedBytesWorld
+import MW.Lemmas.LedBytesConnect
 namespace MW.Props.C01
 open MW MW.Model.Ledger MW.Spec.Chain MW.Spec.Books MW.Lemmas.Ledger
 
@@ -649,6 +650,43 @@ theorem inv_bytes {E : MW.LedBytes.Env} {c : Ctx} {bs : BStore} {chain : List Bl
         hash.length = 32 ∧ E.N.blk hash = b.id) ∧
     syncedToOf bs.sync + 1 = chain.length :=
   ⟨fun _ hw hr => (invB_balance h hw hr).1, fun _ _ hh hne hb => invB_sync h hh hne hb, invB_syncedTo h⟩
+
+/-- (Round 6) `disconnect_block_on_bytes` — disconnectBlock ON BYTES: TxStore.Rollback (FetchAllMinedBalance, the loop
+    over the heights from the cursor down: fetchBlockRecord + the transactions in reverse through `rollback_tx_on_bytes`,
+    deleteBlockRecord, the pending spenders of the removed coinbase credits, UpdateMinedBalances), resetSyncedTo (the delete
+    loop and the cursor), the importing wallets' cursors.  Hypotheses beside canonicity are facts about the bytes the step
+    itself produces (`RollbackOut`: the balances written back fit 8 bytes under 42-byte ids, outpoints / heights fit their
+    fields; Rollback leaves the cursor alone) and the cursor is below the "syncedto" collision height -/
+theorem disconnect_block_on_bytes {E : MW.LedBytes.Env} {c : Ctx} (R : RbEnv E c) (P : PendEnv E c.own) {bs : BStore}
+    (hC : CanonS E bs) {height : Nat} (hcur : syncedToOf bs.sync < collisionHeight) (hout : RollbackOut R bs height)
+    (hcur1 : ∀ bs1, rollbackB R P bs height = .ok bs1 → syncedToOf bs1.sync = syncedToOf bs.sync) :
+    (disconnectBlockB R P bs height).map (absStore E) = disconnectBlock c (absStore E bs) height ∧
+    ∀ bs', disconnectBlockB R P bs height = .ok bs' → CanonS E bs' :=
+  disconnectBlock_on_bytes R P hC hcur hout hcur1
+
+/-- (Round 6) `filter_block_on_bytes` — THE CONNECT STEP ON BYTES: filterBlock's node check, onRelevantBlockConnected
+    (FetchAllMinedBalance restricted to the ready wallets, `ledger_on_bytes` per relevant record, UpdateMinedBalances),
+    RemoveUnminedConflicts on the irrelevant transactions, putSyncedTo (fetchSyncedBlock below / above, putSyncedBucket,
+    cursor).  The relevant records enter through `RelOracle` (byte-level twins of what filterTx computes; the two store
+    reads of filterTx commute: `filter_tx_reads_on_bytes`).  `FilterOut`: facts about the bytes the step produces (room in
+    the block record before every AddRelevantTx, balances written back fit) -/
+theorem filter_block_on_bytes {E : MW.LedBytes.Env} {c : Ctx} (P : PendEnv E c.own) (O : RelOracle E c) {bs : BStore}
+    (hC : CanonS E bs) {ready : List Bytes} {b : Block} {hashB : Bytes} (hh : hashB.length = 32) (hid : E.N.blk hashB = b.id)
+    (hht : b.height + 1 < collisionHeight) {time8 time4 : Nat} (ht8 : time8 < 256 ^ 8) (ht4 : time4 < 256 ^ 4)
+    (hout : FilterOut P O bs ready b hashB time8) :
+    (filterBlockB P O bs ready b hashB time8 time4).map (fun x => (absStore E x.1, x.2))
+      = filterBlock c (absStore E bs) (ready.map E.N.wal) b ∧
+    ∀ x, filterBlockB P O bs ready b hashB time8 time4 = .ok x → CanonS E x.1 :=
+  filterBlock_on_bytes P O hC hh hid hht ht8 ht4 hout
+
+/-- (Round 6) the store reads of filterTx and of the follower commute: ExistCreditFromTx (a key of `c` under the 32-byte
+    hash prefix), the pending transaction under a hash, the ready wallets read off bucket `ws` -/
+theorem filter_tx_reads_on_bytes {E : MW.LedBytes.Env} {own : Own} (P : PendEnv E own) {bs : BStore} (hC : CanonS E bs)
+    {txh : Bytes} (hh : txh.length = 32) {wallets : List Bytes} (hw : ∀ w ∈ wallets, w.length = 42) :
+    existCreditFromTx (absStore E bs) (E.N.tx txh) = existCreditFromTxB bs.c txh ∧
+    AMap.get (absStore E bs).pending (E.N.tx txh) = (pendTxB P bs.m txh).map (TxB.nm E.N) ∧
+    readyWallets (absStore E bs) (wallets.map E.N.wal) = (readyWalletsB bs.ws wallets).map E.N.wal :=
+  ⟨existCreditFromTx_on_bytes E hC hh, pendTx_on_bytes P hC hh, readyWallets_on_bytes E hC hw⟩
 
 /-- (Round 6) histories on the byte store: for ANY byte-level processConnectedBlock `pbB` that simulates
     `Model.Ledger.processBlock` (`PbSim`), the run on bytes abstracts to the run of the ledger model event by event -/
